@@ -112,19 +112,22 @@ def strictWorld (v1w : CheckV1.World) : CheckV1.World :=
   let ct := v1w.ctxTuples.filter (strictCond v1w.model)
   { v1w with stored := st, ctxTuples := ct }
 
-/-- a condition on an edge that is part of a cycle (the precondition of V2-B) -/
-def potB (w : CheckV2.World) : Bool :=
-  w.graph.edges.any (fun e => (e.tc || e.recRel ≠ "") &&
-    ((e.etype = 0 && e.conds ≠ [""]) ||
-     (e.etype = 2 && (match tuplesetEdge w.graph e.tupleset (typOf e.dst) with
-        | some ts => ts.conds ≠ [""]
-        | none => false))))
+/-- the precondition of V2-B(recursive): a recursive edge whose tuples carry conditions, and a tuple of the relation
+it reads whose condition is not met — `Recursive.buildTupleMapperForID` lets such a tuple claim its target in the
+breadth-first search's own visited set before the condition filter drops it -/
+def potBrec (w : CheckV2.World) : Bool :=
+  w.graph.edges.any (fun e =>
+    e.recRel ≠ "" && !e.tc && (e.etype = 0 || e.etype = 2) &&
+    (let conds := if e.etype = 0 then e.conds else
+        (match tuplesetEdge w.graph e.tupleset (typOf e.dst) with | some ts => ts.conds | none => [""])
+     let rel := if e.etype = 0 then relOf e.dst else relOf e.tupleset
+     let typ := if e.etype = 0 then typOf e.dst else typOf e.tupleset
+     conds ≠ [""] &&
+     (w.ctxTuples ++ w.stored).any (fun t => t.rel = rel && typeOf t.obj = typ && evalCond w.model w.req.ctx t ≠ .tt)))
 
-/-- a tuple-to-userset edge inside a tuple cycle (the precondition of V2-A) -/
-def potA (w : CheckV2.World) : Bool := w.graph.edges.any (fun e => e.etype = 2 && e.tc)
-
-/-- which repair of the model makes it agree with `want` -/
-def diagnose (w : CheckV2.World) (v1w : CheckV1.World) (want obs : String) (scheduleDependent : Bool := false) : String :=
+/-- why the answer `obs` of run `run` differs from the expected `want`: a known finding only when its precondition
+is present *and* the model reproduces the behaviour; anything else is "unexplained" (a regression) -/
+def diagnose (w : CheckV2.World) (v1w : CheckV1.World) (want obs : String) (run : String := "d1") : String :=
   if !(modelClasses w 2).contains obs then
     -- the weight2 / recursive strategies read through the same filtered iterator (bottomUp.buildIterator): an
     -- evaluation error is swallowed as soon as another tuple of the same read passed.  Dropping every tuple whose
@@ -134,25 +137,15 @@ def diagnose (w : CheckV2.World) (v1w : CheckV1.World) (want obs : String) (sche
       ctxTuples := w.ctxTuples.filter (fun t => evalCond w.model w.req.ctx t ≠ .err) }
     if want = "Econd" && (modelClasses noErr 2).all (· = obs) then
       "V2-E a condition evaluation error was swallowed by the filtered iterator (here: the bottom-up read of the weight2 / recursive strategy)"
-    -- V2-A / V2-B depend on which branch claims a key first: under another arrival order (breadth 25, the races of
-    -- the fast paths) they can strike where the modelled order (breadth 1) is lucky.  Recognised only when the
-    -- graph has the precondition *and* the repaired model gives the expected answer while some order-insensitive
-    -- over-approximation of the defect (every conditional tuple on a cycle edge dropped up front / keys shared by
-    -- parent object) does not.
-    else if scheduleDependent && potB w && (modelClasses { w with fixMarkOrder := true } 2).contains want then
-      "V2-B the visited filter runs before the condition filter: a tuple dropped by its condition has already claimed the userset (under this arrival order)"
-    else if scheduleDependent && potA w && (modelClasses { w with fixTtuKey := true } 2).contains want then
-      "V2-A the shared visited filter identifies a tuple-to-userset sub-problem by the parent object only (under this arrival order)"
+    -- only the recursive strategy (forced, or chosen by the server's planner), only a lost `true`, only with the precondition
+    else if (run = "r1" || run = "r25" || run = "srv") && want = "T" && obs = "F" && (modelClasses w 2).contains "T" && potBrec w then
+      "V2-B(recursive) Recursive.buildTupleMapperForID still applies the visited filter before the condition filter: a tuple dropped by its condition has already claimed its target in the breadth-first search (order dependent)"
     else "unexplained (the model of the engine does not reproduce this answer)"
   else
   let tainted := (checkSet w 2).any (fun o => match o with | .ok _ t => t | _ => false)
   let agrees (w' : CheckV2.World) : Bool := (modelClasses w' 2).all (fun c => c = want || !isDec c) && (modelClasses w' 2).any (· = want)
   if agrees w then
     "unexplained (the model of the default strategy at concurrency 1 gives the expected answer: the deviation is specific to this strategy / schedule)"
-  else if agrees { w with fixTtuKey := true } then
-    "V2-A the shared visited filter identifies a tuple-to-userset sub-problem by the parent object only (buildIterator key = tuple user), so a second relation of the same tuple cycle on that object is skipped"
-  else if agrees { w with fixMarkOrder := true } then
-    "V2-B the visited filter runs before the condition filter: a tuple dropped by its condition has already claimed the userset"
   else if agrees { w with stored := w.stored.filter (CheckV1.validForRead v1w.model) } then
     "V2-D a stored tuple that is not valid for the model (left over from another model) is honoured: internal/check does not validate tuples on read"
   else if oracleClass (strictWorld v1w) ≠ oracleClass v1w then
@@ -204,6 +197,11 @@ def step (c impl : String) : String :=
       -- the pruning steps rely on the local consistency of the dumped graph (trusted data, checked here)
       if !isUserset w.req.user && !wfWeights g w.ut then modelDiff "graph-not-wellformed:weights" else
       if !wfWildcards g then modelDiff "graph-not-wellformed:wildcards" else
+      -- the clean hypotheses of `shared_visited_union_sound`, per case: without an unevaluable condition the model must
+      -- not rely on any unjustified step (a taint would mean two sub-problems behind one visited key)
+      let condErr := (w.ctxTuples ++ w.stored).any (fun t => evalCond w.model w.req.ctx t = .err)
+      if !condErr && (checkSet w 2).any (fun o => match o with | .ok _ t => t | _ => false) then
+        modelDiff "unexpected-taint: a visited key is shared by two sub-problems" else
       let d1 := norm (i.get "d1")
       let looks := [2, 1, 3, 0, 64]
       let exact := looks.any (fun l => (modelClasses w l).contains d1)
@@ -218,9 +216,9 @@ def step (c impl : String) : String :=
           cls.findSome? (fun x =>
             if !isDec x then none
             else if (o = "T" || o = "F") && x ≠ o then
-              some s!"object subject: weighted-graph engine ({name}) answered {x} but the reference semantics is {o}: {diagnose w v1w o x (name = "d25")}"
+              some s!"object subject: weighted-graph engine ({name}) answered {x} but the reference semantics is {o}: {diagnose w v1w o x name}"
             else if o = "U" then
-              some s!"object subject: weighted-graph engine ({name}) answered {x} although an unevaluable condition leaves the answer open: {diagnose w v1w "Econd" x (name = "d25")}"
+              some s!"object subject: weighted-graph engine ({name}) answered {x} although an unevaluable condition leaves the answer open: {diagnose w v1w "Econd" x name}"
             else none)))
       -- (2) userset / wildcard subjects: a difference from the default engine needs a reported reason
       let cr := i.get "cr"
@@ -236,7 +234,7 @@ def step (c impl : String) : String :=
                 let why :=
                   if v1side then "the default engine is wrong here (C01 findings F1/F12), the weighted-graph engine agrees with the reference semantics"
                   else
-                    let d := diagnose w v1w v1 x (name = "d25")
+                    let d := diagnose w v1w v1 x name
                     -- V2-C only when the engine behaves exactly as modelled (untainted): a genuine difference of the two
                     -- engines' semantics for this subject that the detector's catalogue does not cover
                     let asModelled := (checkSet w 2).any (fun o => renderV o = x && (match o with | .ok _ t => !t | _ => false))
